@@ -127,6 +127,13 @@ class ThermochemIncomplete(ThermochemBase):
         """Delete |eq_ND_S_ref| data."""
         self.ND_S_ref = None
 
+    def _outside_range(self, T):
+        try:
+            self.check_range(T)
+        except OutsideCorrelationError:
+            return True
+        return False
+
     def get_CpoR(self, T):
         if not self.ND_Cp_data:
             raise IncompleteDataError(
@@ -152,6 +159,11 @@ class ThermochemIncomplete(ThermochemBase):
                     " be corrected because heat capacity data is not"
                     " available." % (T, self.T_ref),
                     IncompleteDataWarning)
+            elif self._outside_range(T):
+                warn(
+                    "Evaluation of ND_H_ref at T=%g is outside the valid range"
+                    " of this correlation." % T,
+                    IncompleteDataWarning)
             return self.ND_H_ref
         else:
             try:
@@ -172,6 +184,11 @@ class ThermochemIncomplete(ThermochemBase):
                     "Evaluation of ND_S_ref with (T=%g <=> T_ref=%g) will not"
                     " be corrected because heat capacity data is not"
                     " available." % (T, self.T_ref),
+                    IncompleteDataWarning)
+            elif self._outside_range(T):
+                warn(
+                    "Evaluation of ND_S_ref at T=%g is outside the valid range"
+                    " of this correlation." % T,
                     IncompleteDataWarning)
             return self.ND_S_ref
         else:
